@@ -1,0 +1,8 @@
+//go:build verif
+
+// Contracts for the govc verifier (/verif). Comment-only; compiled only with -tags verif.
+
+package schemaorg
+
+//@ func NewParser(root, timingInfo)
+//@   ensures result != nil && fresh(result)
